@@ -2,6 +2,8 @@ package main
 
 // C03 — ICS-23 proofs.
 
+import "fmt"
+
 func c03Specs(tier string) []*Spec {
 	var specs []*Spec
 	add := func(name string, cfg Cfg, keys, vals [][]byte, depth, maint int, a Alpha) {
@@ -20,7 +22,29 @@ func c03Specs(tier string) []*Spec {
 		specs = append(specs, &Spec{ID: "C03", Name: name, Cfg: cfg, Keys: ks, Vals: bs("x", "y"), MaxDepth: depth, MaxMaint: 1, Weight: 8,
 			Alphabet: a.Ops, Oracles: []Oracle{oracleProofs(probesFor(ks), true)}})
 	}
+	// insertions / removals with hash and proof queries on the working tree in between, on top of a committed
+	// version of 4 (6) keys: a query memoises hashes on uncommitted nodes, a later rotation must not keep them (the
+	// proofs of the working tree and of the version committed from it are built from those hashes)
+	addHQ := func(base []string, depth int) {
+		a := Alpha{Writes: true, SetAbsentOnly: true, Save: true, HashReads: true, MaxVersions: 2}
+		ks := bs("a", "b", "c", "d", "e", "f")
+		if len(base) > 4 {
+			ks = bs("a", "b", "c", "d", "e", "f", "g", "h")
+		}
+		var prelude []Op
+		for _, k := range base {
+			prelude = append(prelude, Op{Kind: OpSet, Key: []byte(k), Val: []byte("x")})
+		}
+		prelude = append(prelude, Op{Kind: OpSave})
+		sp := &Spec{Weight: 4, ID: "C03", Name: fmt.Sprintf("hashquery/%dkeys-committed/d%d", len(base), depth), Cfg: defaultCfg, Keys: ks, Vals: bs("x"), MaxDepth: depth, MaxMaint: 0,
+			UnboundedReads: true, Alphabet: a.Ops, Oracles: []Oracle{oracleProofs(probesFor(ks), true)}}
+		sp.Init, sp.BaseModel = preludeInit(prelude)
+		sp.Label = "the history starts from a committed version 1 built by: " + histString(prelude)
+		specs = append(specs, sp)
+	}
 	if tier == "quick" {
+		addHQ([]string{"b", "c", "d", "e"}, 4)
+		addHQ([]string{"b", "c", "d", "e", "f", "g"}, 3)
 		addRewrite("rewrite/2keys/d8", defaultCfg, 8)
 		add("default/3keys/d5", defaultCfg, k3, bs("x", "y"), 5, 1, full)
 		add("nofast/3keys/d4", noFast, k3, bs("x", "y"), 4, 1, full)
@@ -32,6 +56,8 @@ func c03Specs(tier string) []*Spec {
 		add("iv8191/3keys/d4", Cfg{Fast: false, IVSet: true, IV: 8191}, k3, bs("x"), 4, 1, full)
 		return specs
 	}
+	addHQ([]string{"b", "c", "d", "e"}, 6)
+	addHQ([]string{"b", "c", "d", "e", "f", "g"}, 5)
 	addRewrite("rewrite/2keys/d10", defaultCfg, 10)
 	addRewrite("rewrite-nofast-cache1000/2keys/d9", Cfg{Fast: false, Cache: 1000}, 9)
 	add("default/3keys/d6", defaultCfg, k3, bs("x", "y"), 6, 2, full)
